@@ -197,10 +197,26 @@ func c09exec(j run.Job, a *run.Acc) {
 			if dir, derr := os.MkdirTemp(run.OutRoot(), "c09-readfile-"); derr == nil {
 				path := filepath.Join(dir, "f")
 				if os.WriteFile(path, raw, 0o644) == nil {
-					if lf, rerr := text.ReadFile(path); rerr == nil {
+					lf, rerr := text.ReadFile(path)
+					if rerr != nil || lf == nil {
+						a.Violate("ReadFile", "ReadFile-fails-on-a-readable-file", map[string]any{"bytes": len(raw), "error": fmt.Sprint(rerr)})
+					} else {
 						f = lf
 						a.Count("long files loaded from disk with text.ReadFile", 1)
 					}
+					// a path that does not exist: an error and no file, never a panic
+					func() {
+						defer func() {
+							if e := recover(); e != nil {
+								a.Violate("ReadFile", "ReadFile-panics-on-a-missing-file", map[string]any{"panic": fmt.Sprint(e)})
+							}
+						}()
+						if mf, merr := text.ReadFile(filepath.Join(dir, "missing")); merr == nil || mf != nil {
+							a.Violate("ReadFile", "ReadFile-of-a-missing-file-returns-no-error", map[string]any{"file_is_nil": mf == nil, "error": fmt.Sprint(merr)})
+						} else {
+							a.Count("missing files: ReadFile returned an error and no file", 1)
+						}
+					}()
 				}
 				os.RemoveAll(dir)
 			}
